@@ -255,7 +255,16 @@ class Codec:
         encoded_msg = rawmsg[valid_idx : next_msg + valid_idx]
         # in case of garbled header, skip to the next frame start marker (if any)
         skip_length = msg.find("8=FIX.", 5)
-        skip_length = len(rawmsg) if skip_length == -1 else valid_idx + skip_length
+        if skip_length == -1:
+            # keep a split start marker of the next frame at the end of the buffer
+            keep = 0
+            if is_complete and valid_idx + next_msg < len(rawmsg):
+                tail = rawmsg[valid_idx + next_msg :]
+                if len(tail) <= 5 and b"8=FIX."[: len(tail)] == tail:
+                    keep = len(tail)
+            skip_length = len(rawmsg) - keep
+        else:
+            skip_length = valid_idx + skip_length
 
         msg = msg[:next_msg].split(self.SOH)
         if not msg[-1]:
